@@ -1,127 +1,60 @@
-(* StoreMono.v — the lambda-name store only grows: new cells are appended, and a cell that has
-   a name keeps it (write-once).  Together with Frames.v this is "values are immutable":
-   nothing that evaluation can do changes what an existing value is or how it behaves. *)
+(* C02Keep.v — with the repaired naming rule (an assignment names a lambda only if the evaluation of its
+   right-hand side created it; repo fix of F52) evaluation NEVER WRITES TO A CELL THAT EXISTED BEFORE:
+   [store_keep st st'] = the store grew and every old cell has exactly the name (or no name) it had.
+   This is the side condition [old_names_kept] of the eval-twice theorems, now a theorem.
+
+   The proofs are those of StoreMono.v / InstMono.v / FullInst.v (store monotonicity) verbatim, inside a
+   module in which [store_le] denotes the stronger relation; only the base lemmas (allocation, naming) and
+   the two assignment lemmas differ (naming is relative to the store the assignment started from). *)
 From Coq Require Import String Ascii List ZArith Bool Lia.
 Require Import Blots.Num Blots.gen.Builtins Blots.Ast Blots.Value Blots.Outcome Blots.Binop
-               Blots.Env Blots.Eval Blots.BuiltinsHof Blots.proofs.ExprInd.
+               Blots.Env Blots.Eval Blots.BuiltinsHof Blots.Program Blots.EvalInst Blots.EvalFull
+               Blots.proofs.ExprInd Blots.proofs.StoreMono.
+Require Blots.BuiltinsList.
 Import ListNotations.
 Open Scope string_scope.
 Open Scope list_scope.
 Open Scope nat_scope.
 
-Definition store_le (st st' : store) : Prop :=
+Definition store_keep (st st' : store) : Prop :=
   Datatypes.length st <= Datatypes.length st' /\
-  forall id n, lam_name st id = Some n -> lam_name st' id = Some n.
+  forall id, id < Datatypes.length st -> lam_name st' id = lam_name st id.
 
+Module Keep.
+Definition store_le := store_keep.
 Lemma store_le_refl : forall st, store_le st st.
 Proof. split; auto. Qed.
 Lemma store_le_trans : forall a b c, store_le a b -> store_le b c -> store_le a c.
-Proof. intros a b c [L1 N1] [L2 N2]; split; [lia|auto]. Qed.
-
-Lemma nth_error_set_nth_same : forall {A} (l : list A) n a,
-  n < Datatypes.length l -> nth_error (set_nth l n a) n = Some a.
-Proof.
-  induction l as [|x l IH]; intros [|n] a Hn; cbn in *; try lia; auto. apply IH; lia.
-Qed.
-Lemma nth_error_set_nth_other : forall {A} (l : list A) n m a,
-  n <> m -> nth_error (set_nth l n a) m = nth_error l m.
-Proof.
-  induction l as [|x l IH]; intros [|n] [|m] a Hne; cbn; auto; try congruence.
-Qed.
-Lemma length_set_nth : forall {A} (l : list A) n a,
-  Datatypes.length (set_nth l n a) = Datatypes.length l.
-Proof. induction l as [|x l IH]; intros [|n] a; cbn; auto. Qed.
-
-Lemma name_if_lambda_le : forall st v x, store_le st (name_if_lambda st v x).
-Proof.
-  intros st v x. destruct v; try apply store_le_refl. cbn [name_if_lambda].
-  destruct (lam_name st id) eqn:E; [apply store_le_refl|].
-  split; [rewrite length_set_nth; lia|].
-  intros id' n Hn. unfold lam_name in *.
-  destruct (Nat.eq_dec id id') as [->|Hne].
-  - rewrite Hn in E. discriminate.
-  - rewrite nth_error_set_nth_other; auto.
-Qed.
-
-Lemma name_if_created_le : forall n0 st v x, store_le st (name_if_created n0 st v x).
-Proof.
-  intros n0 st v x. destruct v; try apply store_le_refl. cbn [name_if_created].
-  destruct (Nat.leb n0 id); [apply name_if_lambda_le|apply store_le_refl].
-Qed.
+Proof. intros a b c [L1 N1] [L2 N2]; split; [lia|]. intros id Hid. rewrite N2 by lia. apply N1; exact Hid. Qed.
 
 Lemma fresh_lambda_le : forall st args body scope v st',
   fresh_lambda st args body scope = (v, st') -> store_le st st'.
 Proof.
   intros st args body scope v st' H. unfold fresh_lambda in H. inversion H; subst.
   split; [rewrite app_length; cbn; lia|].
-  intros id n Hn. unfold lam_name in *.
-  destruct (nth_error st id) eqn:E; [|discriminate].
-  rewrite nth_error_app1; [rewrite E; auto|]. apply nth_error_Some. congruence.
+  intros id Hid. unfold lam_name. rewrite nth_error_app1 by exact Hid. reflexivity.
+Qed.
+
+(* naming at an assignment that started from st0 touches only cells created since *)
+Lemma name_if_created_keep : forall st0 st1 v x,
+  store_le st0 st1 -> store_le st0 (name_if_created (Datatypes.length st0) st1 v x).
+Proof.
+  intros st0 st1 v x [L N]. destruct v; try (split; assumption). cbn [name_if_created].
+  destruct (Nat.leb_spec (Datatypes.length st0) id) as [Hge|Hlt]; [|split; assumption].
+  cbn [name_if_lambda]. destruct (lam_name st1 id); [split; assumption|].
+  split; [rewrite length_set_nth; exact L|].
+  intros j Hj. unfold lam_name. rewrite nth_error_set_nth_other by lia. apply N. exact Hj.
+Qed.
+Lemma bind_value_keep : forall (c c1 : cfg) x v r c',
+  store_le (fst c) (fst c1) -> bind_value (Datatypes.length (fst c)) c1 x v = (r, c') -> store_le (fst c) (fst c').
+Proof.
+  intros c c1 x v r c' Hk H. unfold bind_value in H.
+  destruct (insert_head (snd c1) x v); inversion H; subst; cbn [fst]; apply name_if_created_keep; exact Hk.
 Qed.
 
 (* ---- a callback / implementation "only grows the store" ---- *)
 Definition cb_mono (cb : callback) : Prop :=
   forall this f args st r st', cb this f args st = (r, st') -> store_le st st'.
-
-(* generic: eval_binop moves the state only through [call] *)
-Section BinopRel.
-  Variable St : Type.
-  Variable R : St -> St -> Prop.
-  Hypothesis R_refl : forall s, R s s.
-  Hypothesis R_trans : forall a b c, R a b -> R b c -> R a c.
-  Variable call : value -> value -> list value -> St -> outcome value * St.
-  Hypothesis call_R : forall this f args st r st', call this f args st = (r, st') -> R st st'.
-  Variable fa2 : value -> bool.
-  Variable powf : num -> num -> num.
-
-  Definition MR {A} (m : M St A) : Prop := forall st r st', m st = (r, st') -> R st st'.
-
-  Lemma lift_R : forall A (o : outcome A), MR (lift St o).
-  Proof. intros A o st r st' H. inversion H; subst; auto. Qed.
-  Lemma bindM_R : forall A B (m : M St A) (f : A -> M St B),
-    MR m -> (forall a, MR (f a)) -> MR (bindM St m f).
-  Proof.
-    intros A B m f Hm Hf st r st' H. unfold bindM in H.
-    destruct (m st) as [o st1] eqn:E. apply Hm in E.
-    destruct o; try (inversion H; subst; exact E).
-    apply Hf in H. eauto.
-  Qed.
-  Lemma for_each_R : forall B (idxs : list nat) (body : nat -> M St B),
-    (forall i, MR (body i)) -> MR (for_each St idxs body).
-  Proof.
-    intros B idxs body Hb; induction idxs as [|i r IH]; cbn [for_each].
-    - apply lift_R.
-    - apply bindM_R; [apply Hb|]. intros y. apply bindM_R; [exact IH|]. intros ys. apply lift_R.
-  Qed.
-  Lemma call_fn_R : forall f args, MR (call_fn St call f args).
-  Proof. intros f args st r st' H. unfold call_fn in H. eauto. Qed.
-
-  Ltac mr :=
-    repeat first
-      [ apply lift_R | apply call_fn_R
-      | apply bindM_R; [|intros ?] | apply for_each_R; intros ?
-      | match goal with |- MR (if ?b then _ else _) => destruct b end
-      | match goal with |- MR (match ?x with _ => _ end) => destruct x end ].
-
-  Lemma arm_list_list_R : forall op l r, MR (arm_list_list St call powf op l r).
-  Proof. intros op l r. unfold arm_list_list. destruct (negb _); [apply lift_R|]. destruct op; mr. Qed.
-  Lemma arm_list_scalar_R : forall op b l s, MR (arm_list_scalar St call fa2 powf op b l s).
-  Proof. intros op b l s. unfold arm_list_scalar. destruct op; mr. Qed.
-  Lemma arm_scalar_R : forall op l r, MR (arm_scalar St call powf op l r).
-  Proof. intros op l r. unfold arm_scalar. destruct op; mr. Qed.
-
-  Theorem eval_binop_R : forall op l r st res st',
-    eval_binop St call fa2 powf op l r st = (res, st') -> R st st'.
-  Proof.
-    intros op l r st res st' H. unfold eval_binop in H.
-    destruct op; try (inversion H; subst; apply R_refl);
-      (destruct (is_list r && binop_eqb _ Into); [inversion H; subst; apply R_refl|]);
-      destruct l; destruct r;
-      first [ eapply arm_list_list_R; eassumption
-            | eapply arm_list_scalar_R; eassumption
-            | eapply arm_scalar_R; eassumption ].
-  Qed.
-End BinopRel.
 
 (* ---- the HOF built-ins move the store only through [call] ---- *)
 Section HofMono.
@@ -252,18 +185,13 @@ Section EvalMono.
         destruct o; try (inversion H; subst; exact E1).
         apply IH in H. eapply store_le_trans; eauto.
   Qed.
-  Lemma bind_value_st : forall n0 c1 x v r c', bind_value n0 c1 x v = (r, c') -> store_le (fst c1) (fst c').
-  Proof.
-    intros n0 c1 x v r c' H. unfold bind_value in H.
-    destruct (insert_head (snd c1) x v); inversion H; subst; cbn [fst]; apply name_if_created_le.
-  Qed.
   Lemma assign_value_st : forall ev x ve, st_ok ev ve ->
     forall c r c', assign_value ev c x ve = (r, c') -> store_le (fst c) (fst c').
   Proof.
     intros ev x ve Hve c r c' H. unfold assign_value in H.
     destruct (ev c ve) as [o c1] eqn:E1. apply Hve in E1.
     destruct o; try (inversion H; subst; exact E1).
-    apply bind_value_st in H. eapply store_le_trans; eauto.
+    eapply bind_value_keep; eauto.
   Qed.
   Lemma assign_checked_st : forall ev x ve, st_ok ev ve ->
     forall c r c', assign_checked ev c x ve = (r, c') -> store_le (fst c) (fst c').
@@ -272,7 +200,7 @@ Section EvalMono.
     destruct (ev c ve) as [o c1] eqn:E1. apply Hve in E1.
     destruct o; try (inversion H; subst; exact E1).
     destruct (contains (snd c1) x); [inversion H; subst; exact E1|].
-    apply bind_value_st in H. eapply store_le_trans; eauto.
+    eapply bind_value_keep; eauto.
   Qed.
   Lemma do_step_st : forall ev s, st_ok ev s ->
     (forall x ve, s = EAssign x ve -> st_ok ev ve) ->
@@ -430,3 +358,163 @@ Section EvalMono.
     intros fr. apply AD_mono.
   Qed.
 End EvalMono.
+
+Lemma binop_impl_mono : binop_mono binop_impl.
+Proof.
+  intros cb Hcb op l r st res st' H. unfold binop_impl in H.
+  destruct op; try (inversion H; subst; apply store_le_refl);
+    (eapply (eval_binop_R store store_le store_le_refl store_le_trans cb Hcb); exact H).
+Qed.
+
+Lemma pure_bi_mono : forall f args st r st', pure_bi f args st = (r, st') -> store_le st st'.
+Proof. intros f args st r st' H. inversion H; subst. apply store_le_refl. Qed.
+
+Lemma builtin_impl_mono : builtin_mono builtin_impl.
+Proof.
+  intros cb Hcb b args st res st' H.
+  destruct b; cbn [builtin_impl] in H;
+    try (inversion H; subst; apply store_le_refl);
+    try (eapply pure_bi_mono; exact H).
+  - (* map *) unfold bi_map in H. destruct (hof_prelude args) as [[f l]| | | |];
+      try (inversion H; subst; apply store_le_refl).
+    destruct (map_loop cb f (accepts f 2) l 0 st) as [o st1] eqn:E.
+    apply (map_loop_mono cb Hcb) in E. inversion H; subst. exact E.
+  - (* reduce *) unfold bi_reduce in H.
+    match type of H with (match ?x with _ => _ end) = _ => destruct x as [[[f i0] l]| | | |] end;
+      try (inversion H; subst; apply store_le_refl).
+    eapply (reduce_loop_mono cb Hcb); exact H.
+  - (* filter *) unfold bi_filter in H. destruct (hof_prelude args) as [[f l]| | | |];
+      try (inversion H; subst; apply store_le_refl).
+    destruct (filter_loop cb f (accepts f 2) l 0 st) as [o st1] eqn:E.
+    apply (filter_loop_mono cb Hcb) in E. inversion H; subst. exact E.
+  - (* every *) unfold bi_every in H. destruct (hof_prelude args) as [[f l]| | | |];
+      try (inversion H; subst; apply store_le_refl).
+    eapply (every_loop_mono cb Hcb); exact H.
+  - (* some *) unfold bi_some in H. destruct (hof_prelude args) as [[f l]| | | |];
+      try (inversion H; subst; apply store_le_refl).
+    eapply (some_loop_mono cb Hcb); exact H.
+Qed.
+
+Import Blots.BuiltinsList.
+(* ================= store monotonicity ================= *)
+Section ListMono.
+  Variable call : callback.
+  Hypothesis call_mono : cb_mono call.
+
+  Lemma sort_by_cmp_mono : forall func a b st r st',
+    sort_by_cmp store call func a b st = (r, st') -> store_le st st'.
+  Proof.
+    intros func a b st r st' H. unfold sort_by_cmp in H.
+    destruct (is_function func); [|inversion H; subst; apply store_le_refl].
+    destruct (call func func [a] st) as [ra st1] eqn:E1. apply call_mono in E1.
+    destruct ra; try (inversion H; subst; exact E1).
+    destruct (call func func [b] st1) as [rb st2] eqn:E2. apply call_mono in E2.
+    assert (store_le st st2) by (eapply store_le_trans; eauto).
+    destruct rb; inversion H; subst; assumption.
+  Qed.
+
+  Lemma merge_by_mono : forall func left right st r st',
+    merge_by store call func left right st = (r, st') -> store_le st st'.
+  Proof.
+    intros func left. induction left as [|a left' IHl]; intros right st r st' H.
+    - destruct right; cbn in H; inversion H; subst; apply store_le_refl.
+    - revert st r st' H. induction right as [|b right' IHr]; intros st r st' H.
+      + cbn in H. inversion H; subst; apply store_le_refl.
+      + cbn [merge_by] in H.
+        destruct (sort_by_cmp store call func b a st) as [c st1] eqn:Ec.
+        apply sort_by_cmp_mono in Ec.
+        destruct c as [[]| | | |]; try (inversion H; subst; exact Ec).
+        * destruct (merge_by store call func left' (b :: right') st1) as [res st2] eqn:Em.
+          apply IHl in Em. inversion H; subst. eapply store_le_trans; eauto.
+        * match type of H with context [(fix merge_right (r : list value) (s : store) {struct r} := _) right' st1] =>
+            destruct ((fix merge_right (r : list value) (s : store) {struct r} := _) right' st1) as [res st2] eqn:Em end.
+          specialize (IHr st1 res st2). cbn [merge_by] in IHr. apply IHr in Em.
+          inversion H; subst. eapply store_le_trans; eauto.
+        * destruct (merge_by store call func left' (b :: right') st1) as [res st2] eqn:Em.
+          apply IHl in Em. inversion H; subst. eapply store_le_trans; eauto.
+  Qed.
+
+  Lemma merge_sort_by_fuel_mono : forall fuel func l st r st',
+    merge_sort_by_fuel store call fuel func l st = (r, st') -> store_le st st'.
+  Proof.
+    induction fuel as [|f IH]; intros func l st r st' H; cbn [merge_sort_by_fuel] in H.
+    - inversion H; subst; apply store_le_refl.
+    - destruct (Datatypes.length l <? 2)%nat; [inversion H; subst; apply store_le_refl|].
+      destruct (merge_sort_by_fuel store call f func (firstn (Datatypes.length l / 2) l) st) as [sl st1] eqn:E1.
+      apply IH in E1.
+      destruct sl; try (inversion H; subst; exact E1).
+      destruct (merge_sort_by_fuel store call f func (skipn (Datatypes.length l / 2) l) st1) as [sr st2] eqn:E2.
+      apply IH in E2.
+      assert (store_le st st2) by (eapply store_le_trans; eauto).
+      destruct sr; try (inversion H; subst; assumption).
+      apply merge_by_mono in H. eapply store_le_trans; eauto.
+  Qed.
+
+  Lemma bi_sort_by_mono : forall args st r st',
+    bi_sort_by store call args st = (r, st') -> store_le st st'.
+  Proof.
+    intros args st r st' H. unfold bi_sort_by in H.
+    destruct (BuiltinsList.arg args 1); try (inversion H; subst; apply store_le_refl).
+    destruct (obind (BuiltinsList.arg args 0) BuiltinsList.as_list);
+      try (inversion H; subst; apply store_le_refl).
+    unfold sort_by_list in H.
+    destruct (merge_sort_by_fuel store call (Datatypes.length a0) a a0 st) as [res st1] eqn:E.
+    apply merge_sort_by_fuel_mono in E. inversion H; subst. exact E.
+  Qed.
+
+  Lemma keyed_items_mono : forall func l st r st',
+    keyed_items store call func l st = (r, st') -> store_le st st'.
+  Proof.
+    intros func l. induction l as [|item rest IH]; intros st r st' H; cbn [keyed_items] in H.
+    - inversion H; subst; apply store_le_refl.
+    - destruct (call func func [item] st) as [k st1] eqn:E. apply call_mono in E.
+      destruct k as [v| | | |]; try (inversion H; subst; exact E).
+      destruct v; try (inversion H; subst; exact E).
+      destruct (keyed_items store call func rest st1) as [more st2] eqn:E2. apply IH in E2.
+      inversion H; subst. eapply store_le_trans; eauto.
+  Qed.
+
+  Lemma bi_group_by_mono : forall args st r st',
+    bi_group_by store call args st = (r, st') -> store_le st st'.
+  Proof.
+    intros args st r st' H. unfold bi_group_by in H.
+    destruct (by_prologue args) as [[func l]| | | |]; try (inversion H; subst; apply store_le_refl).
+    destruct (keyed_items store call func l st) as [keyed st1] eqn:E. apply keyed_items_mono in E.
+    inversion H; subst. exact E.
+  Qed.
+  Lemma bi_count_by_mono : forall args st r st',
+    bi_count_by store call args st = (r, st') -> store_le st st'.
+  Proof.
+    intros args st r st' H. unfold bi_count_by in H.
+    destruct (by_prologue args) as [[func l]| | | |]; try (inversion H; subst; apply store_le_refl).
+    destruct (keyed_items store call func l st) as [keyed st1] eqn:E. apply keyed_items_mono in E.
+    inversion H; subst. exact E.
+  Qed.
+End ListMono.
+
+Lemma builtin_full_mono : builtin_mono builtin_full.
+Proof.
+  intros cb Hcb b args st res st' H.
+  destruct b; cbn [builtin_full] in H;
+    try (eapply pure_bi_mono; exact H);
+    try (eapply (builtin_impl_mono cb Hcb); exact H).
+  - eapply bi_sort_by_mono; eauto.
+  - eapply bi_group_by_mono; eauto.
+  - eapply bi_count_by_mono; eauto.
+Qed.
+
+End Keep.
+
+(* ---- the statements outside the module, in terms of [store_keep] ---- *)
+Theorem evalD_store_keep : forall release d c e r c',
+  evalD release binop_impl builtin_impl d c e = (r, c') -> store_keep (fst c) (fst c').
+Proof.
+  intros release d.
+  exact (Keep.evalD_store_le release binop_impl builtin_impl Keep.binop_impl_mono Keep.builtin_impl_mono d).
+Qed.
+Theorem evalD_store_keep_full : forall release d c e r c',
+  evalD release binop_impl builtin_full d c e = (r, c') -> store_keep (fst c) (fst c').
+Proof.
+  intros release d.
+  exact (Keep.evalD_store_le release binop_impl builtin_full Keep.binop_impl_mono Keep.builtin_full_mono d).
+Qed.
